@@ -4,7 +4,7 @@
 From Coq Require Import ZArith Bool List Floats Lia Sorting.Sorted.
 From F2G Require Import Go.GoFloat gen.Consts Model.Util Model.Fan Model.ControlLoop Model.Controller
                         Proofs.Closest Proofs.Rescale Proofs.Ctrl Proofs.CtrlC04 Proofs.CtrlC05 Drv.Common Drv.Ctrl
-                        Proofs.CtrlLinks Proofs.CtrlLinksC04.
+                        Proofs.CtrlLinks Proofs.CtrlLinksC04 Proofs.CtrlLinksC10Progress.
 From F2G Require Drv.CtrlC07.
 Import ListNotations.
 Open Scope Z_scope.
@@ -128,14 +128,77 @@ Proof.
   exact (written_mono (c_pm c) r1 r2 w1 w2 Hpm Hn Hr (D1 G1 Hq) (D2 G2 Hq)).
 Qed.
 
+(* ---- the cycles that perform a raise: request = steady request with the OLD floor, plus one ---- *)
+Definition rp_ok (lo hi : Z) (p : Z * Z * Z) : Prop :=
+  let '(o1, v1, r1) := p in
+  1 <= o1 /\ lo + o1 <= hi /\ r1 = steady v1 (lo + (o1 - 1)) hi + 1.
+
+Lemma c07_raise_points_ok c lo hi :
+  0 <= lo -> hi <= 255 -> pm_ok (c_pm c) ->
+  forall h s, inv lo hi s -> s_stopped s = 0 -> s_alg s = Direct None ->
+  Forall (rp_ok lo hi) (CtrlC07.c07_raise_points (s_offset s) (zip h (snd (run c s h)))).
+Proof.
+  intros Hlo Hhi Hpm. induction h as [|e h IH]; intros s I Hrun Ha; [constructor|].
+  cbn [run].
+  pose proof (step_spec c s e lo hi Hlo Hhi Hpm I) as S.
+  pose proof (step_stopped c s e lo hi Hlo Hhi Hpm I) as SS. rewrite Hrun in SS. cbn [Z.eqb negb orb] in SS.
+  pose proof (step_alg_direct c s e None Ha) as Ha1.
+  pose proof (step_obs_state c s e) as SO.
+  assert (Hc : forall i, e = Cycle i -> o_err (snd (step c s e)) = 0 ->
+     exists s1 r, calc_target c s i = TOk s1 r
+       /\ s_last (fst (step c s e)) = Some r /\ s_offset (fst (step c s e)) = s_offset s1)
+    by (intros i -> E; destruct (cycle_ok_shape c s i lo hi Hlo Hhi Hpm I Hrun E) as (s1 & r & A & B & C & _); eauto).
+  destruct (step c s e) as [s1 o]. cbn [fst snd] in *. destruct S as (I1 & _).
+  destruct SO as (Oreq & Ooff & _).
+  pose proof (IH s1 I1) as IH1.
+  destruct (run c s1 h) as [s2 os]. cbn [snd zip CtrlC07.c07_raise_points] in *.
+  rewrite Ooff in *.
+  destruct e as [rpm|i|m p].
+  - apply IH1; auto. apply negb_false_iff in SS. apply Z.eqb_eq in SS. exact SS.
+  - destruct (o_err o =? 0) eqn:E; cbn [negb]; [|constructor]. cbn [negb] in SS. apply Z.eqb_eq in E.
+    assert (Hrun1 : s_stopped s1 = 0) by (apply negb_false_iff in SS; apply Z.eqb_eq in SS; exact SS).
+    specialize (IH1 Hrun1 Ha1).
+    destruct (Hc i eq_refl E) as (sc & r & ET & EL & EO).
+    destruct (ci_curve i) as [v|] eqn:Ev; [|exact IH1].
+    rewrite Oreq, EL.
+    destruct (s_offset s <? s_offset s1) eqn:Eoff; [|exact IH1]. apply Z.ltb_lt in Eoff.
+    constructor; [|exact IH1].
+    destruct (calc_target_dn c s i lo hi sc r I Ha ET) as (v' & Ev' & Hcases).
+    rewrite Ev in Ev'. inversion Ev'; subst v'.
+    destruct I as [_ _ Ioff _ _]. destruct I1 as [_ _ _ Ifloor1 _].
+    destruct Hcases as [(E1 & _)|(E1 & E2 & _)]; [lia|].
+    unfold rp_ok. rewrite EO, E1 in *. split; [lia|]. split; [lia|].
+    replace (s_offset s + 1 - 1) with (s_offset s) by lia. exact E2.
+  - apply IH1; auto. apply negb_false_iff in SS. apply Z.eqb_eq in SS. exact SS.
+Qed.
+
+Lemma raise_ok_of_pts c lo hi rps pts :
+  0 <= lo -> hi <= 255 ->
+  Forall (rp_ok lo hi) rps -> Forall (pt_ok c lo hi) pts -> CtrlC07.c07_raise_ok rps pts = true.
+Proof.
+  intros Hlo Hhi Hr Hp. rewrite Forall_forall in Hr, Hp.
+  unfold CtrlC07.c07_raise_ok. apply forallb_forall. intros [[o1 v1] r1] H1.
+  apply forallb_forall. intros [[[[o2 v2] r2] w2] k2] H2.
+  destruct (o1 =? o2) eqn:Eo; [|reflexivity]. apply Z.eqb_eq in Eo. subst o2.
+  destruct (Hr _ H1) as (A1 & B1 & C1). destruct (Hp _ H2) as (_ & _ & C2 & _).
+  pose proof (steady_floor_step v1 (lo + (o1 - 1)) hi ltac:(lia) ltac:(lia) Hhi) as FS.
+  replace (lo + (o1 - 1) + 1) with (lo + o1) in FS by lia.
+  destruct (steady_shape (lo + o1) hi ltac:(lia) B1 Hhi) as (_ & _ & _ & M & _).
+  apply andb_true_iff. split.
+  - destruct (v1 <=? v2) eqn:G; [|reflexivity]. apply Z.leb_le in G. apply Z.leb_le. specialize (M v1 v2 G). lia.
+  - destruct (v2 <=? v1) eqn:G; [|reflexivity]. apply Z.leb_le in G. apply Z.leb_le. specialize (M v2 v1 G). lia.
+Qed.
+
 Theorem C07_ctrl_model_passes c : base_wf c -> CtrlC07.holdsb (with_obs c (model_obs c)) = true.
 Proof.
   intros W. pose proof (base_init_inv c W) as I. destruct W as [Hpm Hout (A & B & C)].
   unfold CtrlC07.holdsb. change (k_alg (with_obs c (model_obs c))) with (k_alg c).
   destruct (k_alg c) as [[cl|]|p|f] eqn:Ea; try reflexivity.
+  pose proof (c07_points_ok (case_cfg c) _ _ A C Hpm (k_hist c) (case_init c) I eq_refl Ea) as Hpts.
+  pose proof (c07_raise_points_ok (case_cfg c) _ _ A C Hpm (k_hist c) (case_init c) I eq_refl Ea) as Hrps.
+  apply andb_true_iff. split; [|exact (raise_ok_of_pts (case_cfg c) _ _ _ _ A C Hrps Hpts)].
   apply (pairs_ok_of_pts (case_cfg c) (GetMinPwm (case_fan c)) (GetMaxPwm (case_fan c))); auto.
   - intros H. apply andb_true_iff in H. destruct H as [H1 H2]. apply Z.eqb_eq in H2. split; assumption.
-  - apply (c07_points_ok (case_cfg c) _ _ A C Hpm (k_hist c) (case_init c) I eq_refl). exact Ea.
 Qed.
 
 Theorem C07_ctrl_no_false_alarm c : mismatch c = false -> base_wf c -> CtrlC07.holdsb c = true.
